@@ -155,6 +155,13 @@ claim("C31", "model_checking", "TLA+ reference semantics of WebAssembly integer 
       "Trusted: TLC, BV.tla, node/V8 as the independent engine for attribution only. Integer subset; floats, memory and control instructions are not in this check's case space.",
       "DESIGN.md section 4 (WebAssembly hub)")
 
+claim("C02", "model_checking", "TLA+ WebAssembly numeric/memory semantics evaluated by TLC (WasmNum.tla) + native execution of every case through wat2x64 + gcc; TLA+ integer kernel (WaInt.tla) + native vs WebAssembly build of the same Wa programs",
+      "Part 1: the hub module shared with C31/C03/C04 (one function per numeric, conversion, constant and memory operator) gets a _start that calls every non-trapping case and prints the "
+      "result through the native runtime's print_i64; it is translated with wat2x64.Wat2X64 (the call `wa native build` makes), assembled and linked with gcc -static -nostdlib as the "
+      "toolchain does, and run; values must equal the TLC-specified ones. Trapping cases run one per function in their own executable and must end abnormally. Part 2: the WaInt kernel "
+      "programs are built with `wa native build --arch x64 --target linux` and run, and compared line by line and by exit status with `wa run` of the same program.",
+      "Trusted: TLC, BV.tla, gcc's assembler and linker. Integer subset only (no floating point, no control-flow cases beyond calls). Open known finding: no bounds checks natively.",
+      "DESIGN.md section 4 (WebAssembly hub)")
 claim("C03", "model_checking", "TLA+ reference semantics (WasmNum.tla cases from TLC) + execution of every case in the C program generated by wat2c, compiled with clang -O0 and -O2",
       "The hub's module (one exported function per numeric operator, per store/load combination with offsets, per bounds probe, per constant immediate) is translated with "
       "wat2c, compiled with clang at -O0 and -O2 and every TLC case is executed; the value, or abnormal termination where a trap is specified, must match the specification. "
@@ -214,7 +221,7 @@ claim("C07", "exploration", "TLC enumeration of the legal lexical layouts (WaLay
       "DESIGN.md section 4 (language kernel)")
 claim("C08", "exploration", "TLC enumeration of token strings over the four front ends' alphabets and of the dispatch table (WaFront.tla) + in-process execution of every entry point with recovered panics, watchdog and process-exit detection",
       "WaFront.tla gives each surface language (Wa, Wz, WAT, native assembly) an alphabet of 35-54 tokens (keywords, brackets, identifier, literals including unterminated strings/chars "
-      "and malformed numbers, every comment style, illegal bytes) and enumerates all token strings of length <= 2 (quick) / <= 3 (thorough); each is rendered spaced, tight, repeated "
+      "and malformed numbers, every comment style, illegal bytes) and enumerates all token strings of length <= 2, and in thorough also of length 3 over a 22-26 token core of each alphabet; each is rendered spaced, tight, repeated "
       "12 times (the parsers bail out after 10 errors) and inside well-formed frames (function body, global initialiser, WAT module/function, text section) and fed to api.FormatCode, "
       "api.GetCodeSyntax, parser.ParseFile, api.BuildFile (type checking when the text parses), the WAT parser and the assembly parser under the file name of its language. A panic, a "
       "call that does not return (10 s watchdog; 60 s for BuildFile) or a process exit is a violation. The second part is the dispatch table: extension class x content class -> "
